@@ -862,13 +862,14 @@ func (p *sshFxpReadPacket) getDataSlice(alloc *allocator, orderID uint32, maxTxP
 		dataLen = maxTxPacket
 	}
 
-	if alloc != nil {
+	if alloc != nil && dataLen <= maxMsgLength {
 		// GetPage returns a slice with capacity = maxMsgLength this is enough to avoid new allocations in
 		// sshFxpDataPacket.MarshalBinary
 		return alloc.GetPage(orderID)[:dataLen]
 	}
 
-	// allocate with extra space for the header
+	// allocate with extra space for the header (also when the payload limit was
+	// raised beyond the size of a page)
 	return make([]byte, dataLen, dataLen+dataHeaderLen)
 }
 
